@@ -193,10 +193,23 @@ func cmdCheck(verifDir, repoDir string, args []string) int {
 		cfg.tmp = filepath.Join(verifDir, "replays", "queries-"+prop)
 		os.MkdirAll(cfg.tmp, 0o755)
 	}
+	// obligations with recorded findings get a short first attempt: they are expected to fail,
+	// and are then re-checked outside the recorded inputs
+	kfNames := map[string]bool{}
+	for _, f := range findings {
+		if f.Property == prop {
+			kfNames[f.Obligation] = true
+		}
+	}
+	for _, o := range all {
+		if kfNames[baseName(o.Name)] {
+			o.shortFirst = true
+		}
+	}
 	dischargeAll(all, cfg)
 
 	// classify
-	rep := &Report{Prop: prop, Tier: tier, Seed: seed, Start: t0, VerifDir: verifDir, prog: p, frs: frs}
+	rep := &Report{Prop: prop, Tier: tier, Seed: seed, Start: t0, VerifDir: verifDir, prog: p, frs: frs, known: map[int]bool{}}
 	frByName := map[string]*FuncResult{}
 	for _, fr := range frs {
 		frByName[fr.Name] = fr
